@@ -669,7 +669,16 @@ func c16Prop(c *sim.Case) {
 		}
 		c.Violation("hang:"+where, "%d checks did not return within 45 s although every simulated peer answers within milliseconds; blocked in %s", hung, where)
 	}
-	reports := parseRaces(raceLogText(c16Offsets))
+	c16Judge(c, raceLogText(c16Offsets))
+	if maxInflight >= 2 && (bgFired > 0 || !(bgSecret || bgCA || bgKeys)) {
+		c.NonTrivial()
+	}
+	c.FP(fmt.Sprint(c.Trace[:len(c.Trace)-1]), nG, perG)
+}
+
+// c16Judge canonicalises the race reports in text and reports the first pair that is not a listed finding.
+func c16Judge(c *sim.Case, text string) {
+	reports := parseRaces(text)
 	seen := map[string]bool{}
 	// known findings first so that an unknown pair in the same workload is still reported
 	var unknown []raceReport
@@ -696,10 +705,21 @@ func c16Prop(c *sim.Case) {
 		c.Logf("%s", short(rp.text, 6000))
 		c.Violation("race:"+rp.a+" via "+rp.b, "data race %s reached through %s (%d distinct unknown pairs in this workload)", rp.a, rp.b, len(unknown))
 	}
-	if maxInflight >= 2 && (bgFired > 0 || !(bgSecret || bgCA || bgKeys)) {
-		c.NonTrivial()
+}
+
+// c16Postmortem: the process of an earlier run died of a runtime fatal error (memory corrupted by a race does that);
+// the race detector's reports of that run are still in its log files and are judged here.
+func c16Postmortem(c *sim.Case) {
+	files, _ := filepath.Glob(os.Getenv("VERIF_C16_POSTMORTEM") + ".*")
+	var sb strings.Builder
+	for _, f := range files {
+		if b, err := os.ReadFile(f); err == nil {
+			sb.Write(b)
+		}
 	}
-	c.FP(fmt.Sprint(c.Trace[:len(c.Trace)-1]), nG, perG)
+	c.Logf("post-mortem of a run that ended in a runtime fatal error: %d race-log files, %d bytes", len(files), sb.Len())
+	c16Judge(c, sb.String())
+	c.NonTrivial()
 }
 
 func TestC16(t *testing.T) {
@@ -708,6 +728,10 @@ func TestC16(t *testing.T) {
 	defer r.Finish()
 	if !raceEnabled {
 		t.Fatalf("C16 must be built with -race")
+	}
+	if os.Getenv("VERIF_C16_POSTMORTEM") != "" {
+		r.Direct("postmortem", nil, c16Postmortem)
+		return
 	}
 	r.Rule = "workload programs: 1-3 OIDC filters (static or discovered endpoints, static JWKS or fetcher with 1 s refresh, literal secret or Kubernetes secret reference, optional watched CA file with 10-30 ms refresh) on the shared memory store or Redis, assembled with the real session-store factory, TLS pool and JWKS provider behind server.ExtAuthZFilter.Check; 8-64 goroutines x 3-12 requests (in a third of the workloads preceded by a burst of 10-49 requests without a cookie from every goroutine) of kinds {no cookie, login + fresh session, wait for expiry + refresh, logout, excluded path}, every third request under one of two sessions per filter that all goroutines share (parallel requests of one browser, including concurrent refreshes of one session); background goroutines: secret reconcile every 3 ms, CA file rewrite every 15 ms, key publication every 20 ms. Built with -race, GORACE halt_on_error=0. Oracle: race-detector reports canonicalised to the unordered pair of innermost authservice frames with access kinds; recovered panics; a check that has not returned after 45 s although every simulated peer answers within milliseconds is reported as a hang with the blocked frame; a 240 s watchdog on the whole workload (expiry = inconclusive, exit 2). Non-trivial = at least two checks were in flight simultaneously and every requested background updater fired; distinct = distinct workload program."
 	r.Assumptions = []string{"the race detector reports only races between accesses that both execute in the run; paths the workload never takes are invisible", "deadlock freedom is observed, not proven"}
